@@ -486,7 +486,10 @@ def run_codec_script(script):
                     kind = {"Capacities": "int", "Flags": "bool"}.get(cls, "str")
                     same = {"int": 5, "bool": True, "str": "x"}[kind]
                     foreign = {"int": "x", "bool": "x", "str": 5}[kind]
-                    d["zz_unknown"] = same if o["extra"] == "same" else foreign
+                    if o["extra"] == "same_first":       # the unknown key is met BEFORE the known ones
+                        d = dict([("aaa_future", same)] + list(d.items()))
+                    else:
+                        d["zz_unknown"] = same if o["extra"] == "same" else foreign
                     back = K.from_json(json.dumps(d))
                     res = {"k": "dec", "dec": _fields(cls, back)}
             elif op == "SimpleRoundTrip":
